@@ -253,6 +253,37 @@ Theorem c08_binary_from_peer : forall raw k (pbs : list (bool * list N)) h,
   map bin_decode (get_all_bin (from_headers h) raw) = map (fun pb => Some (snd pb)) pbs.
 Proof. exact binary_from_peer. Qed.
 
+(* ---- literal keys and values (from_static, &'static str keys) ---- *)
+Theorem c08_static_key_typing : forall bin raw,
+  (forall k, mk_key_static bin raw = Val k -> k = raw /\ bin_suffix k = bin /\ hn_static_ok raw = true) /\
+  (mk_key_static bin raw = Panic <-> hn_static_ok raw = false \/ bin_suffix raw = negb bin).
+Proof. exact mk_key_static_spec. Qed.
+
+Theorem c08_static_key_is_from_bytes : forall bin raw k,
+  mk_key_static bin raw = Val k -> existsb (N.eqb 34) raw = false -> mk_key bin raw = Some k.
+Proof. exact static_key_is_from_bytes. Qed.
+
+Theorem c08_static_binary_value : forall v,
+  (forall v', bin_from_static v = Val v' -> v' = v /\ exists b, bin_decode v' = Some b) /\
+  (bin_from_static v = Panic <-> bin_decode v = None) /\
+  (forall pad b, bytes_ok b = true ->
+     bin_from_static (enc pad b) = Val (enc pad b) /\ bin_decode (enc pad b) = Some b).
+Proof. exact bin_from_static_spec. Qed.
+
+Theorem c08_static_ascii_value : forall v,
+  (forall v', ascii_from_static v = Val v' -> v' = v /\ ascii_from_bytes v = Some v) /\
+  (ascii_from_static v = Panic <-> forallb hv_static_byte v = false).
+Proof. exact ascii_from_static_spec. Qed.
+
+Theorem c08_static_insert : forall bin m raw v,
+  (forall m', insert_static bin m raw v = Val m' ->
+     bin_suffix raw = bin /\ forall k, hm_get_all m' k = if bytes_eqb raw k then [v] else hm_get_all m k) /\
+  (forall m', append_static bin m raw v = Val m' ->
+     bin_suffix raw = bin /\ forall k, hm_get_all m' k = (hm_get_all m k ++ (if bytes_eqb raw k then [v] else []))%list) /\
+  (insert_static bin m raw v = Panic <-> mk_key_static bin raw = Panic) /\
+  (append_static bin m raw v = Panic <-> mk_key_static bin raw = Panic).
+Proof. exact insert_static_spec. Qed.
+
 (* ---- MetadataMap::merge and the trailers it folds ---- *)
 Theorem c08_merge_pointwise : forall m o k,
   hm_get_all (merge m o) k = match hm_get_all o k with [] => hm_get_all m k | l => l end.
@@ -338,3 +369,4 @@ Print Assumptions c08_keys_typing.
 Print Assumptions c08_binary_end_to_end.
 Print Assumptions c08_status_metadata_received.
 Print Assumptions c08_trailers_merged.
+Print Assumptions c08_static_key_typing.
